@@ -2,9 +2,11 @@ import SpecKitV.Lemmas.SchedLtf
 import SpecKitV.Lemmas.Starts
 import SpecKitV.Lemmas.SchedNewVec
 import SpecKitV.Props.C04
+import SpecKitV.Props.JdesGen
 import SpecKitV.Props.C04New
 import SpecKitV.Props.C04Vec
 import SpecKitV.Props.SchedGen
+import SpecKitV.Props.VecGen
 import SpecKitV.Props.StartsGen
 import SpecKitV.Props.Utils
 
@@ -30,6 +32,10 @@ import SpecKitV.Props.Utils
 #print axioms findJdes_sound
 #print axioms findJdes_fuel
 #print axioms findJdes_complete
+#print axioms gen_findJdes_eq_model
+#print axioms gen_findJdes_sound
+#print axioms gen_findJdes_complete
+#print axioms gen_findJdes_complete_log
 #print axioms newPlan_monotone
 #print axioms NewMono.newStep_mono
 #print axioms NewMono.inv_step
@@ -41,6 +47,11 @@ import SpecKitV.Props.Utils
 #print axioms gen_ltf_round_eq
 #print axioms gen_ltf_walk_eq_model
 #print axioms gen_new_walk_eq_model
+#print axioms Arr.memo_eq
+#print axioms Np.logspace_get
+#print axioms Np.searchsortedLeft_eq
+#print axioms gen_vec_walk_eq_model
+#print axioms gen_vec_walk_eq_plan
 #print axioms gen_ltf_starts_eq_model
 #print axioms gen_ltf_starts_safe
 #print axioms gen_round_half_up_eq_model
